@@ -9,17 +9,21 @@ output, so a disagreement is turned into "violates the property on x" or "model 
 """
 import itertools
 import json
+import random
+import re
 from collections import Counter
 from pathlib import Path
 
 from . import core
 
 PID = "C10"
+LOOKS = re.compile(r"\w+/[^\n]+")  # `looks_like_a_taxon` on names without newline
 # sorted for the code-point order; '!' '+' '-' '.' all sort before '/': "a!", "a+/k", "a-b/x"
 # sit between "a" and its descendants, "a/y-z" between "a/y" and "a/y/z"; other roots; "a/yz" and
 # "a/y-z" are SIBLINGS of "a/y" whose last segment extends "y" (string prefix, not path prefix).
 POOL = ["a", "a!", "a+/k", "a-b/x", "a/y", "a/y-z", "a/y/z", "a/yz", "b/a"]
 EDGES = ["a", "a-b", "a!", "b", "a.b", "ab", "a+", "x", "#", "a,b", "Z"]
+WORD_ROOTS = ["a", "b", "ab", "x", "Z", "flow"]  # roots matching \w+: the names look like taxa
 UNCLEAN_EDGES = EDGES + ["", ".", "..", " "]
 
 
@@ -45,18 +49,34 @@ class Impl:
             return {"exc": type(exc).__name__}
         return canon({"ok": [[t.name, list(t.spans.items())] for t in out]})
 
-    def to_taxa(self, scratch, taxa, idx):
-        """The same input through Taxonomy.to_taxa: one literal row per taxon name, one label per
-        (name, span), so that `acc` is exactly `taxa` and `sorted(acc.items())` does the sorting."""
-        path = Path(scratch) / f"c10-taxonomy-{idx}.tsv"
-        rows = ["Taxa\tLabels"] + [f"{n}\tlab_{i}" for i, (n, _) in enumerate(taxa)]
-        path.write_text("\n".join(rows) + "\n", encoding="utf-8")
-        labels = []
+    def labels_for(self, taxa):
+        """A taxonomy and a label list whose accumulation is exactly `taxa` — a deterministic function
+        of `taxa` (so that shrinking and replaying see the same labels): one literal row per taxon
+        name; a taxon whose name looks like a taxon (`word/...`) is, more often than not, ALSO hinted
+        under its own name, its spans split between the translated label and the hint; the labels
+        come in a shuffled order (hint before or after its translated namesake, descendants before
+        ancestors), and `to_taxa` must accumulate and sort."""
+        rng = random.Random("c10-labels-" + json.dumps(taxa))
+        rows, labels = ["Taxa\tLabels"], []
         for i, (n, b) in enumerate(taxa):
-            spans = []
-            for s, c in b:
-                spans += [self.Span(s, s, "p")] * c
-            labels.append(self.Label(f"lab_{i}", spans))
+            spans = [s for s, c in b for _ in range(c)]
+            rows.append(f"{n}\tlab_{i}")
+            if LOOKS.fullmatch(n) and rng.random() < 0.6:
+                rng.shuffle(spans)
+                k = rng.randint(0, len(spans))
+                labels.append([f"lab_{i}", spans[:k]])
+                labels.append([n, spans[k:]])
+            else:
+                labels.append([f"lab_{i}", spans])
+        rng.shuffle(labels)
+        return rows, labels
+
+    def to_taxa(self, scratch, taxa, idx):
+        """The same input through Taxonomy.to_taxa (see `labels_for`)."""
+        path = Path(scratch) / f"c10-taxonomy-{idx}.tsv"
+        rows, labels = self.labels_for(taxa)
+        path.write_text("\n".join(rows) + "\n", encoding="utf-8")
+        labels = [self.Label(L, [self.Span(s, s, "p") for s in sp]) for L, sp in labels]
         try:
             out = self.mt.Taxonomy(path).to_taxa(labels)
         except Exception as exc:  # noqa
@@ -176,6 +196,7 @@ class Checker:
                         "signature": None,
                         "replay": {
                             "kind": "c10-case", "via": via, "stream": stream, "taxa": small,
+                            **({"to_taxa_rows_and_labels": self.impl.labels_for(small)} if via == "Taxonomy.to_taxa" else {}),
                             "impl": a3, "model": m3, "spec_on_impl_output": sp3,
                             "failed_clauses": [c for c in CLAUSES if "ok" in a3 and not sp3[c]] or ["raises"],
                             "original_case": t,
@@ -209,10 +230,10 @@ BAGS2 = [b for b in ([[0, c0]] * (c0 > 0) + [[1, c1]] * (c1 > 0)
                      for c0 in (0, 1, 2) for c1 in (0, 1, 2)) if b]
 
 
-def random_clean(rng, max_names, max_depth, max_count, n_spans):
+def random_clean(rng, max_names, max_depth, max_count, n_spans, word_roots=False):
     k = rng.randint(0, max_names)
     names = set()
-    roots = rng.sample(EDGES, rng.randint(1, 3))
+    roots = rng.sample(WORD_ROOTS if word_roots else EDGES, rng.randint(1, 3))
     while len(names) < k:
         depth = rng.randint(1, max_depth)
         parts = [rng.choice(roots)] + [rng.choice(EDGES[:7]) for _ in range(depth - 1)]
@@ -303,20 +324,25 @@ def run(ctx):
         # 4. through Taxonomy.to_taxa (unsorted accumulation order, sorted by the method)
         n_tt = 150 if quick else 3000
         scratch = ctx.scratch_dir()
-        tt_cases = []
+        tt_cases = [
+            # a regular label translated into T and a hint literally named T, a prefix of T present
+            [["flow/loop", [[5, 1], [20, 1]]], ["flow/loop/while", [[5, 1], [20, 1]]]],
+            [["flow/loop", [[5, 1]]], ["flow/loop/while", [[5, 2], [20, 1]]], ["flow/loop/while/x", [[20, 1]]]],
+            [["a/b", [[0, 2], [1, 1]]], ["a/b/c", [[0, 1], [1, 1], [2, 3]]]],
+        ]
         for i in range(n_tt):
-            t = random_clean(ctx.rng, 7, 4, 2, 2)
-            tt_cases.append(t)
+            tt_cases.append(random_clean(ctx.rng, 7, 4, 3, 3, word_roots=(i % 2 == 0)))
         counter = itertools.count()
 
         def via_to_taxa(t):
-            shuffled = list(t)
-            ctx.rng.shuffle(shuffled)
-            return impl.to_taxa(scratch, shuffled, next(counter))
+            return impl.to_taxa(scratch, t, next(counter))
 
-        # the model is fed the sorted list; to_taxa gets it shuffled and must sort it itself
+        # the model is fed the sorted raw bags; to_taxa gets shuffled labels (hints included) and must
+        # accumulate and sort them itself
         ck.batch("to_taxa", [t for t in tt_cases if all(" " not in n and "\t" not in n for n, _ in t)],
                  runner=via_to_taxa, via="Taxonomy.to_taxa")
+        hinted = sum(1 for t in tt_cases for L, _ in impl.labels_for(t)[1] if not L.startswith("lab_"))
+        ctx.cov["to_taxa_hint_labels_colliding_with_a_translation"] = hinted
         # 5. unclean / unsorted / non-positive counts: outside the hypotheses, model must agree
         n_un = 3000 if quick else 40000
         ck.batch("unclean", [random_unclean(ctx.rng) for _ in range(n_un)])
